@@ -79,6 +79,15 @@ class Collector:
                         DISCHARGED if cond else VIOLATED,
                         why_ok if cond else why_bad)
 
+    def soft(self, cond, rule, file, func, role, node, why_ok='',
+             why_unknown=''):
+        """For shape-recognition checks: a mismatch means the construct
+        was not recognised (unknown), never a violation."""
+        return self.add(rule, file, func, role, node,
+                        DISCHARGED if cond else UNKNOWN,
+                        why_ok if cond else 'shape not recognised: ' +
+                        why_unknown)
+
     def by_rule(self):
         out = {}
         for o in self.obs:
